@@ -87,6 +87,7 @@ type Ctx struct {
 	allocSite map[ssa.Instruction]int
 	seenSentinels []string
 	curClause *Clause
+	directStores map[interface{}]bool // cells a loop assigns directly (as opposed to element-wise)
 }
 
 func (c *Ctx) declare(line string) {
